@@ -36,7 +36,7 @@ func init() {
 // C37: block processing never halts the chain.
 func TestC37(t *testing.T) {
 	run := ev.Start("C37")
-	nHist, nOps := run.Pick(25, 300), run.Pick(700, 2000)
+	nHist, nOps := run.Pick(25, 200), run.Pick(700, 2000)
 	// hostileqos: consumers sign QoS excellence reports with any values the report validation lets through
 	hq := profRep(3)
 	hq.Name = "hostileqos"
